@@ -22,6 +22,7 @@ import (
 func init() {
 	opRunners["conc4"] = runConc4
 	opRunners["conc20"] = runConc20
+	opRunners["conc3"] = runConc3
 }
 
 // conc4Line: a preload program and, per connection, a pipeline of read-only requests with (large) array replies.
@@ -285,4 +286,98 @@ func runConc20(toks []string) Result {
 		return Result{Obs: "unbalanced", Oracle: fmt.Sprintf("fail:%d root spans for %d requests on %d connections", roots, answered.Load(), clients), Tags: tags}
 	}
 	return Result{Obs: "balanced", Oracle: "ok", Tags: tags}
+}
+
+
+// conc3: "conc3 <clients> <requests> <seed>": <clients> connections send <requests> commands each at the same time,
+// one at a time, mixing the commands that are composed from other commands (and re-enter the executor table) with
+// plain reads and writes: every request gets its reply, whatever the neighbours are doing (C03: no request makes a
+// connection stall).  A request that is not answered within 10 s is a failure.
+func runConc3(toks []string) Result {
+	clients, _ := strconv.Atoi(toks[1])
+	nreq, _ := strconv.Atoi(toks[2])
+	seed, _ := strconv.ParseUint(toks[3], 10, 64)
+	tags := []string{"nt", "conc-replies", "clients" + toks[1]}
+	srv := redis.NewServer()
+	srv.SetCommandHandler(newSafeHandler())
+	var wg, swg sync.WaitGroup
+	var failed atomic.Value
+	start := make(chan struct{})
+	menu := [][]string{{"GET", "k"}, {"SET", "k", "v"}, {"STRLEN", "k"}, {"SUBSTR", "k", "0", "1"}, {"GETRANGE", "k", "0", "-1"}, {"HEXISTS", "h", "f"}, {"HSTRLEN", "h", "f"},
+		{"HKEYS", "h"}, {"HVALS", "h"}, {"HLEN", "h"}, {"SCARD", "s"}, {"SISMEMBER", "s", "a"}, {"ZCARD", "z"}, {"INCR", "n"}, {"APPEND", "k", "x"}, {"MSETNX", "a", "1", "b", "2"},
+		{"MGET", "a", "b"}, {"DEL", "k"}, {"PING"}, {"ECHO", "x"}, {"SELECT", "1"}, {"CONFIG", "GET", "port"}, {"GET"}, {"NOSUCH", "x"}}
+	for c := 0; c < clients; c++ {
+		cl, sv := net.Pipe()
+		swg.Add(1)
+		go func() {
+			defer swg.Done()
+			defer func() { recover() }()
+			srv.VerifServeConn(sv, nil)
+		}()
+		wg.Add(1)
+		go func(c int) {
+			defer wg.Done()
+			defer cl.Close()
+			r := NewRng(seed + uint64(c)*977)
+			br := bufio.NewReader(cl)
+			<-start
+			for i := 0; i < nreq; i++ {
+				req := menu[r.Intn(len(menu))]
+				cl.SetDeadline(time.Now().Add(10 * time.Second))
+				if _, err := cl.Write(reqS(req...)); err != nil {
+					failed.CompareAndSwap(nil, fmt.Sprintf("request %d of connection %d (%s) could not be sent: %v", i, c, strings.Join(req, " "), err))
+					return
+				}
+				if _, err := readAnyReply(br); err != nil {
+					failed.CompareAndSwap(nil, fmt.Sprintf("request %d of connection %d (%s) got no reply within 10 s", i, c, strings.Join(req, " ")))
+					return
+				}
+			}
+		}(c)
+	}
+	close(start)
+	wg.Wait()
+	done := make(chan struct{})
+	go func() { swg.Wait(); close(done) }()
+	select {
+	case <-done:
+	case <-time.After(10 * time.Second):
+		failed.CompareAndSwap(nil, "the connection loops did not end after the clients had closed")
+	}
+	if f := failed.Load(); f != nil {
+		return Result{Obs: "unanswered", Oracle: "fail:" + f.(string), Tags: tags}
+	}
+	return Result{Obs: "answered", Oracle: "ok", Tags: tags}
+}
+
+// readAnyReply reads one complete RESP reply of any type.
+func readAnyReply(br *bufio.Reader) ([]byte, error) {
+	line, err := br.ReadBytes('\n')
+	if err != nil {
+		return nil, err
+	}
+	if len(line) == 0 {
+		return line, nil
+	}
+	switch line[0] {
+	case '$':
+		n, _ := strconv.Atoi(strings.TrimSpace(string(line[1:])))
+		if n >= 0 {
+			body := make([]byte, n+2)
+			if _, err := io.ReadFull(br, body); err != nil {
+				return nil, err
+			}
+			line = append(line, body...)
+		}
+	case '*':
+		n, _ := strconv.Atoi(strings.TrimSpace(string(line[1:])))
+		for i := 0; i < n; i++ {
+			e, err := readAnyReply(br)
+			if err != nil {
+				return nil, err
+			}
+			line = append(line, e...)
+		}
+	}
+	return line, nil
 }
